@@ -565,6 +565,7 @@ package parse
 //@   props C05 C18
 //@   pure
 //@   ghost lx *lexer = nil
+//@   at call parse.lexExpr#0 assert[nested-scanner-reports-into-the-file;C19] arg0 == t.name
 //@   at call parse.lexExpr#0 after set lx = res
 //@   ensures result != nil
 //@   ensures[nested-scanner-drained;C18] lx != nil && lx.done
